@@ -200,6 +200,8 @@ struct Harness {
   Verdict (*enumerate)(int tier, int shard, int nshards, Fields *failing);
   // optional self test of the oracle (returns "" if fine)
   std::string (*selftest)();
+  // optional (libFuzzer only): build a case directly from raw input bytes
+  Fields (*from_bytes)(const uint8_t *, size_t);
 };
 extern const Harness HARNESS;  // defined by each harness TU
 
